@@ -60,6 +60,10 @@ def units(ctx):
     us += [_cu3(c, world_setup=_c3.setup)
            for c in _c3.predicate_contracts() + _c3.wrapper_contracts()
            if 'C11' in c.serves]
+    # operands of a host method call on a yaqlized object
+    from contracts import yaqlized as _yz
+    us += [_cu3(c, world_setup=_yz.setup_sinks_opdot)
+           for c in _yz.sink_contracts() if 'C11' in c.serves]
     # a function's (possibly lazy) result is handed on untouched
     from contracts import runner as _r5
     from vlib.pyvc.unit import contract_unit as _cu5
